@@ -295,6 +295,13 @@ func (rw *rewriter) run(out string, overlay map[string]string) {
 					poolEdit = true
 					rw.inv.Sites = append(rw.inv.Sites, Site{site, "sync_pool", "", true})
 				}
+				// sync.Mutex / sync.RWMutex type mention: a blocked task must hand the baton on
+				if tn, ok := p.TypesInfo.Uses[n.Sel].(*types.TypeName); ok && tn.Pkg() != nil && tn.Pkg().Path() == "sync" && (tn.Name() == "Mutex" || tn.Name() == "RWMutex") {
+					edits = append(edits, edit{off(n.Pos()), off(n.End()), "verifhook." + tn.Name()})
+					needHook = true
+					poolEdit = true
+					rw.inv.Sites = append(rw.inv.Sites, Site{rw.rel(n.Pos()), "lock", "sync." + tn.Name() + " (waiting yields to the scheduler)", true})
+				}
 			case *ast.BasicLit:
 				if n.Kind == token.STRING && strings.Contains(n.Value, "%p") {
 					rw.inv.Uncontrolled = append(rw.inv.Uncontrolled, Site{rw.rel(n.Pos()), "address", "%p formatting", false})
